@@ -581,3 +581,34 @@ contract("C18", name="every_variant_of_the_data_reaches_its_own_estimation",
          targets=["irispie.dataslates.main:Dataslate.from_databox", "irispie.databoxes.main:Databox.iter_variants",
                   "irispie.series.main:Series.iter_data_variants_from_until"],
          instances=[(2, None)], opts={"max_paths": 8000})(_roundtrip)
+
+
+# ------------------------------------------------------------------------------ eigenvalues: of the companion matrix, and what is derived from them
+@contract("C18", targets=[PV + "Variant._populate_eigenvalues", PV + "Variant.eigenvalues", PV + "Variant.max_abs_eigenvalue", PV + "Variant.is_stable",
+                          PV + "_tuple_from_flat_array", PV + "_number_from_numpy", PV + "Variant.companion_T"],
+          instances=[(1, 2, (0.5, -0.25)), (2, 1, (1.5, 0.25)), (2, 2, (0.5, -0.9, 0.1, 0.2)), (1, 1, (1.0,)), (1, 2, (-1.0, 0.25))], cross=0, opts={"max_paths": 200})   # incl. a root ON the unit circle: not stable
+def eigenvalues_are_those_of_the_companion_matrix(K, n, order, answer):
+    """The reported eigenvalues are what the eigenvalue kernel returns FOR THE COMPANION MATRIX (the matrix the companion
+    contract proves to be [A_1 ... A_p; I 0]); the largest modulus and the stability flag are derived from exactly those
+    values (stable iff every eigenvalue is inside the unit circle).  numpy.linalg.eigvals itself is external."""
+    v, A, c, S, a = _mk_variant(K, n, order, True)
+    m = n * order
+    spec = _companion_spec(a, n, order)
+    asked = []
+
+    def eigvals(T):
+        asked.append(T)
+        return np.array(answer, dtype=float)
+    ev = K.stubbed(np.linalg.eigvals, eigvals, "numpy.linalg.eigvals: external kernel, represented by a given answer for the matrix it is asked about",
+                   lambda: K.getattr(v, "eigenvalues"))
+    K.ensure("the kernel is asked once", len(asked) == 1)
+    if len(asked) == 1:
+        T = asked[0]
+        K.ensure("... about the companion matrix", K.And(K.shape(T)[0] == m, K.shape(T)[1] == m, *[K.real_eq(K.cell_val(K.cell(T, i, j)), spec[i][j]) for i in range(m) for j in range(m)]))
+    K.ensure("the eigenvalues reported are the kernel's answer", tuple(float(x) for x in K.items(ev)) == tuple(float(x) for x in answer))
+    big = max(abs(x) for x in answer)
+    mx = K.stubbed(np.linalg.eigvals, eigvals, "as above", lambda: K.getattr(v, "max_abs_eigenvalue"))
+    K.ensure("largest modulus", float(mx) == float(big))
+    st = K.stubbed(np.linalg.eigvals, eigvals, "as above", lambda: K.getattr(v, "is_stable"))
+    K.ensure("stable iff every eigenvalue lies inside the unit circle", bool(st) == (big < 1))
+    K.ensure("the kernel is not asked again for what is already known", len(asked) == 1)
